@@ -5,3 +5,4 @@ _Bool __verif_crashed;
 _Bool __verif_crash_is_bug;
 unsigned long long __verif_last_load;
 const volatile void *__verif_last_load_p;
+const volatile void *__verif_ptrloc; void *__verif_ptrobj;
